@@ -46,6 +46,9 @@ VIEW_LIBS = {
     "numpy.atleast_1d", "numpy.atleast_2d", "numpy.real", "numpy.imag", "numpy.swapaxes", "numpy.moveaxis",
     "numpy.expand_dims", "numpy.ascontiguousarray", "numpy.asfortranarray", "numpy.diagonal", "numpy.broadcast_to",
     "numpy.asmatrix", "numpy.matrix",
+    # scalar-type constructors applied to an array return the array itself when the dtype already matches
+    "numpy.int_", "numpy.int64", "numpy.int32", "numpy.intc", "numpy.intp", "numpy.float64", "numpy.float_", "numpy.double",
+    "numpy.complex128", "numpy.complex_", "numpy.cdouble", "numpy.bool_", "numpy.require", "numpy.asarray_chkfinite",
 }
 VIEW_METHODS = {"reshape", "transpose", "ravel", "squeeze", "view", "swapaxes", "astype_nocopy", "diagonal"}
 FRESH_METHODS = {"copy", "conj", "conjugate", "astype", "flatten", "tolist", "toarray", "todense", "sum", "dot",
